@@ -288,3 +288,38 @@ CHECKS["C09"] = {
     ],
     "assumptions": ["literals with trailing text (12abc) and literals whose correctly rounded value overflows are outside the statement and not generated"],
 }
+
+CHECKS["C13"] = {
+    "engine": "E1",
+    "technique": "bounded exhaustive fault injection: one malformed line of each kind at every position of every small conventional file, alone and as each member of a layered read, real parser, expected code/file/line by construction",
+    "level_text": "every conventional file of <= N lines x malformed line {[abc, [abc] x, [], key text} x every position where it cannot be a continuation "
+                  "x optional later malformed line of another kind x {single file, main file, 1st/2nd/3rd drop-in of a two-layer read} x 21 configurations: "
+                  "specific code of the FIRST malformed line, econf_errLocation = that file's path and 1-based line, nothing partial handed back; plus "
+                  "missing file and the frozen code-to-message table",
+    "level_note": "bounded: N<=2 full line alphabet (quick), N<=3 (thorough, reduced tokens); trusted: convgen line meanings, the frozen message table in harness/c13.c",
+    "rule": "case = (configuration, base file, malformed kind, position, second malformed kind, embedding); non-trivial = malformed line not at line 1 or not a single file; distinct by construction; "
+            "skipped = 'key text' directly after an entry (it is a continuation there)",
+    "deadline": {"quick": 100, "thorough": 900},
+    "parts": [
+        {"name": "inject", "harness": "c13", "variant": "asan", "quick": ["--p0", 2], "thorough": ["--p0", 3, "--p1", 1],
+         "floor": {"quick": 100000, "thorough": 1000000}},
+    ],
+    "assumptions": ["the message table is frozen from the pinned tree (lib/econf_error.c) - the header documents the codes, the table their texts"],
+}
+
+CHECKS["C17"] = {
+    "engine": "E1",
+    "technique": "bounded exhaustive enumeration of conventional files with comment blocks, trailing comments and continuation lines; extended values of the real parser compared with by-construction metadata",
+    "level_text": "every conventional file of <= N lines and <= D decorations (trailing comments, indentation, blanks, missing final newline, relative file name) "
+                  "for all 21 configurations: for every key the extended value must report the absolute path, the line on which the entry ends, the texts of the "
+                  "directly preceding comment lines, the trailing comment text and the blank-trimmed value lines; econf_getPath absolute (also for a relative "
+                  "name), empty for a merge result",
+    "level_note": "bounded: N<=3, D<=1 (quick); N<=4, D<=2 under a deadline (thorough); comment blocks separated from their entry by a blank line or header are not judged",
+    "rule": "case = (configuration, file, decorations); non-trivial = some entry has a comment block, a trailing comment or several lines, or the file is read by relative name; distinct by construction",
+    "deadline": {"quick": 110, "thorough": 1200},
+    "parts": [
+        {"name": "metadata", "harness": "c17", "variant": "asan", "quick": ["--p0", 3, "--p1", 1], "thorough": ["--p0", 4, "--p1", 2, "--p2", 1],
+         "floor": {"quick": 100000, "thorough": 1000000}},
+    ],
+    "assumptions": ["values longer than the stdio buffer are C14's subject"],
+}
